@@ -45,11 +45,14 @@ Needed(cfg, c) == UNION {NeededPort(cfg, c, p) : p \in Ports(cfg, c)}
 StuckOf(cfg, L) == {c \in Comps(cfg) : ~(Needed(cfg, c) \subseteq L)}
 StuckSet(cfg) == LET L == LFP(cfg) IN StuckOf(cfg, L)
 InitialPubs(cfg, c) == IF cfg.comps[c].off > 0 THEN <<0, cfg.comps[c].off>> ELSE <<0>>
+PortPubs(cfg, c, p) == IF P(cfg, c, p).st THEN <<-1>> ELSE InitialPubs(cfg, c)
 InitTok(cfg, c, p) == 1000 * c + 100 * p + cfg.comps[c].off
 
 (* ----- case space ----- *)
 Pt(hasin, src, sport, inown, pull, hasout, outown, data) ==
-  [hasin |-> hasin, src |-> src, sport |-> sport, inown |-> inown, pull |-> pull, hasout |-> hasout, outown |-> outown, data |-> data]
+  [hasin |-> hasin, src |-> src, sport |-> sport, inown |-> inown, pull |-> pull, hasout |-> hasout, outown |-> outown, data |-> data, st |-> FALSE]
+(* st: the slots of the port are static (one publication without time, read by static inputs) *)
+Static(pt) == [pt EXCEPT !.st = TRUE]
 Cp(ports, off) == [ports |-> ports, off |-> off]
 Cf(comps, order, fam) == [comps |-> comps, order |-> order, fam |-> fam]
 Datas == {"imm", "pulled", "ininfo"}
@@ -70,7 +73,11 @@ Cross(u) == {Cf(<<Cp(<<a1, a2>>, 0), Cp(<<b1, b2>>, ob)>>, ord, "cross") :
 (* one lane can complete, the other is a ring of derived metadata or of initial pulls *)
 HalfStuck(u) == {Cf(<<Cp(<<OutOnly, a>>, 0), Cp(<<InOnly(1, 1, pl), b>>, 0)>>, ord, "halfstuck") :
                    a \in Mid(2, 2), b \in Mid(1, 2), pl \in BOOLEAN, ord \in {<<1, 2>>, <<2, 1>>}}
-CSpace(f) == CASE f = "lanes" -> Lanes(0) [] f = "cross" -> Cross(0) [] f = "halfstuck" -> HalfStuck(0)
+(* a static output read by static inputs of two consumers, next to an ordinary lane; one consumer may sit in a ring *)
+StaticLane(u) == {Cf(<<Cp(<<Static(OutOnly)>>, 0), Cp(<<Static(InOnly(1, 1, p1)), a>>, o2), Cp(<<Static(InOnly(1, 1, p2)), b>>, 0)>>, ord, "staticlane") :
+                    p1 \in BOOLEAN, p2 \in BOOLEAN, a \in Mid(3, 2), b \in {x \in Mid(2, 2) : x.data # "ininfo" /\ x.inown}, o2 \in {0, 1},
+                    ord \in {<<1, 2, 3>>, <<3, 2, 1>>, <<2, 1, 3>>}}
+CSpace(f) == CASE f = "lanes" -> Lanes(0) [] f = "cross" -> Cross(0) [] f = "halfstuck" -> HalfStuck(0) [] f = "staticlane" -> StaticLane(0)
 
 (* theorems on the case space (evaluated by Connect2Emit) *)
 ThLfp(cfg) ==
